@@ -45,7 +45,9 @@ Verdict(r) ==
    \cup V(\A k \in 1 .. N : Rejected(a, k) <= r.max_restarts, "adapt.retry_budget")
    \cup V(r.exc = "none" => (N > 0 /\ ~ a[N].restart /\ a[N].reaches_tend), "adapt.reaches_tend")
    \cup V(r.exc \in {"none", "ConvergenceError"}, "adapt.no_other_error")
-   \cup V(r.exc = "ConvergenceError" => (N > 0 /\ Rejected(a, N - 1) >= r.max_restarts), "adapt.error_only_after_budget")
+        \* the attempt that raises the error is not logged (the error is raised before the step ends): the LOGGED attempts must end
+        \* with max_restarts consecutive rejections
+   \cup V(r.exc = "ConvergenceError" => Rejected(a, N) >= r.max_restarts, "adapt.error_only_after_budget")
 
 Init == i = 1
 Next == /\ i <= Len(Runs)
